@@ -186,6 +186,17 @@ func c01One(c *vlib.Ctx, r *vlib.Rand, t gopacket.LayerType, b []byte, how strin
 			if len(p.Layers()) >= 2 || hasErr {
 				nontrivial = true
 			}
+			if key == "" && o.Lazy && len(b) > 0 {
+				// "the packet says so" whichever accessor asks first: on a fresh lazy packet the error layer is requested
+				// before anything else forced decoding, and must already be the one the fully decoded packet ends in
+				q := gopacket.NewPacket(b, t, o)
+				first := !isNilLayer(q.ErrorLayer())
+				if first != hasErr {
+					key, desc = "error-layer-differs-when-asked-first:"+t.String(), fmt.Sprintf("ErrorLayer() called first on a lazy packet reports error=%v, after all layers were decoded error=%v", first, hasErr)
+				}
+				dispose(q)
+				c.Count("lazy_error_layer_asked_first", 1)
+			}
 		})
 		c.Evals(1)
 		if p != nil {
